@@ -26,6 +26,7 @@ Definition pos_error_sites : list site := [
   mkSite "internal/resolver/resolve.go" "Visit" "PosErrorf" "n.Pos" [OField "Pos"];
   mkSite "internal/resolver/resolve.go" "Visit" "PosErrorf" "n.Pos" [OField "Pos"];
   mkSite "internal/resolver/resolve.go" "Visit" "PosErrorf" "n.Pos" [OField "Pos"];
+  mkSite "internal/resolver/resolve.go" "Visit" "PosErrorf" "n.Pos" [OField "Pos"];
   mkSite "internal/resolver/resolve.go" "Visit" "PosErrorf" "varExpr.Pos" [OField "Pos"]
 ].
 Definition pos_store_sites : list site := [
